@@ -147,6 +147,20 @@ Theorem C16_status_store_decodes : forall n128 st (l1 : list MocSetBytes.sentry)
   = (n128, l1 ++ MocSetBytes.set_status st e :: l2).
 Proof. exact MocSetBytesProofs.chg_store_decode. Qed.
 
+(** a purge fills a temporary file by appending the kept entries to an empty moc-set of the new n128:
+    EVERY file the temporary file goes through (three per copied entry) decodes to a prefix of the kept
+    entries, and the complete temporary file - the one the atomic rename installs - is exactly the
+    layout of the purged state *)
+Theorem C16_purge_every_file_decodes : forall n128 (todo done : list MocSetBytes.sentry),
+  1 <= n128 -> (length (done ++ todo) <= MocSetBytes.cap_of n128)%nat ->
+  Forall MocSetBytesProofs.entry_ok (done ++ todo) ->
+  MocSetBytes.hdr_size n128 + N.of_nat (length (MocSetBytes.data_part (done ++ todo))) < 2 ^ 64 ->
+  map MocSetBytes.decode_file (MocSetBytes.purge_steps n128 done todo (MocSetBytes.file_bytes n128 done))
+    = MocSetBytes.purge_views n128 done todo /\
+  last (MocSetBytes.file_bytes n128 done :: MocSetBytes.purge_steps n128 done todo (MocSetBytes.file_bytes n128 done)) []
+    = MocSetBytes.file_bytes n128 (done ++ todo).
+Proof. exact MocSetBytesProofs.purge_steps_decode. Qed.
+
 Print Assumptions C16_append_every_boundary_consistent.
 Print Assumptions C16_meta_before_data_refuted.
 Print Assumptions C16_status_stores_keep_data.
@@ -158,3 +172,4 @@ Print Assumptions C16_purge_completed_view.
 Print Assumptions C16_append_writes_every_prefix_decodes.
 Print Assumptions C16_append_final_file.
 Print Assumptions C16_status_store_decodes.
+Print Assumptions C16_purge_every_file_decodes.
